@@ -15,6 +15,32 @@ import (
 	"verif/harness/hook"
 )
 
+// failures come in different concrete error types, as they do from a real runner (an exit status, a time-out, a
+// wrapped error ...): which one a task gets depends on its name only
+type exitFailure struct{ name string }
+
+func (e exitFailure) Error() string { return "verif: generated failure of " + e.name + " (exit status 3)" }
+
+type timeoutFailure struct{ name string }
+
+func (e *timeoutFailure) Error() string { return "verif: generated failure of " + e.name + " (deadline exceeded)" }
+
+func genFailure(name string) error {
+	h := 0
+	for _, ch := range name {
+		h = h*31 + int(ch)
+	}
+	switch h % 4 {
+	case 0:
+		return exitFailure{name}
+	case 1:
+		return &timeoutFailure{name}
+	case 2:
+		return fmt.Errorf("verif: generated failure of %s: %w", name, errors.New("wrapped"))
+	}
+	return errors.New("verif: generated failure of " + name)
+}
+
 // Chooser makes every choice of a schedule: which in-flight run completes next, whether several
 // complete at once, whether the caller cancels now. It is backed by rapid draws, by an enumerator
 // or by the recorded choices of a saved case.
@@ -542,7 +568,7 @@ func execute(g *Gr, ch Chooser, p Params) (obs Obs, vs []Violation) {
 			var out error
 			_, st := m.find(nm)
 			if st.Outcome == Fail || st.Outcome == FailAllow {
-				out = errors.New("verif: generated failure of " + nm)
+				out = genFailure(nm)
 			}
 			c.release(nm, out)
 		}
